@@ -144,3 +144,9 @@ package lib
 //@ func (*DeDuplicator[string]).Found
 //@   ensures[seen] result == old(indom(d.m, k)) && indom(d.m, k)
 //@   ensures[keeps] forall q string :: old(indom(d.m, q)) ==> indom(d.m, q)
+
+// ---- C01: which member a vote is counted for -------------------------------------------------------------
+// the validator returned is the member at the returned index, and it is the one whose key was asked for
+//@ func (*ValidatorSet).GetValidatorAndIdx
+//@   pure
+//@   ensures[member] isnil(err) ==> vs != nil && vs.ValidatorSet != nil && 0 <= idx && idx < len(vs.ValidatorSet.ValidatorSet) && val == vs.ValidatorSet.ValidatorSet[idx] && bytes(val.PublicKey) == bytes(targetPublicKey)
